@@ -2,254 +2,361 @@
 
 package internal
 
-// C13 driver, gRPC resolver: a real discovBuilder (discov.NewSubscriber -> Registry -> cluster
-// -> container -> update() -> subset -> ClientConn.UpdateState) on the driver-fed fake etcd
-// client, with a recording ClientConn; registries of up to ~45 distinct values so that the view
-// crosses the subset size.  Records Values() and the addresses last published.  Also calls
-// subset() directly for every size 0..70.  No expectations here: TLC validates the trace
-// against specs/discov/Discov.tla (PubOK).
+// C13 driver for the gRPC resolver. No expectations here: TLC validates the trace against
+// specs/discov/Discov.tla (DiscovTrace).
+//
+//   TestVerifResolverSubset  subset(set, n) called directly
+//   TestVerifResolverBuild   discovBuilder.Build through the public path: a real etcd
+//                            clientv3 talking to an in-process etcd server (KV.Range,
+//                            Watch, Maintenance.Status) the driver feeds, and a recording
+//                            resolver.ClientConn. Watch events are delivered
+//                            asynchronously; a compacted watch followed by a snapshot is
+//                            the barrier (the next Watch request arrives only after
+//                            everything before has been applied).
 
 import (
+	"context"
 	"fmt"
+	"net"
 	"net/url"
 	"sort"
-	"strconv"
 	"strings"
 	"sync"
-	"sync/atomic"
 	"testing"
+	"time"
 
-	"github.com/zeromicro/go-zero/core/discov"
 	"github.com/zeromicro/go-zero/core/logx"
-	clientv3 "go.etcd.io/etcd/client/v3"
+	pb "go.etcd.io/etcd/api/v3/etcdserverpb"
+	"go.etcd.io/etcd/api/v3/mvccpb"
+	"google.golang.org/grpc"
 	"google.golang.org/grpc/resolver"
 	"google.golang.org/grpc/serviceconfig"
 )
 
-const verifRPrefix = "verif.rpc"
+// ---------------------------------------------------------------- in-process etcd
 
-func verifRKey(k int) string { return fmt.Sprintf("%s/%d", verifRPrefix, k) }
-func verifRVal(v int) string { return fmt.Sprintf("10.2.0.%d:8080", v) }
-
-func verifRValInt(s string) int {
-	n, err := strconv.Atoi(strings.TrimSuffix(strings.TrimPrefix(s, "10.2.0."), ":8080"))
-	if err != nil || verifRVal(n) != s {
-		return -1
-	}
-	return n
+type verifWatch struct {
+	key    string
+	id     int64
+	stream pb.Watch_WatchServer
+	mu     *sync.Mutex // one sender at a time per stream
 }
 
-func verifRInts(vals []string) []int {
-	out := make([]int, 0, len(vals))
-	for _, s := range vals {
-		out = append(out, verifRValInt(s))
+type verifEtcd struct {
+	pb.UnimplementedKVServer
+	pb.UnimplementedWatchServer
+	pb.UnimplementedMaintenanceServer
+
+	mu      sync.Mutex
+	store   map[string]string
+	rev     int64
+	nextID  int64
+	creates chan *verifWatch
+	addr    string
+	gs      *grpc.Server
+}
+
+func verifStartEtcd(t *testing.T) *verifEtcd {
+	lis, err := net.Listen("tcp", "127.0.0.1:0")
+	if err != nil {
+		t.Fatal(err)
 	}
-	sort.Ints(out)
+	s := &verifEtcd{store: map[string]string{}, rev: 10, creates: make(chan *verifWatch, 256),
+		addr: lis.Addr().String(), gs: grpc.NewServer()}
+	pb.RegisterKVServer(s.gs, s)
+	pb.RegisterWatchServer(s.gs, s)
+	pb.RegisterMaintenanceServer(s.gs, s)
+	go s.gs.Serve(lis)
+	return s
+}
+
+func (s *verifEtcd) header() *pb.ResponseHeader {
+	return &pb.ResponseHeader{ClusterId: 1, MemberId: 1, Revision: s.rev, RaftTerm: 1}
+}
+
+func (s *verifEtcd) Status(context.Context, *pb.StatusRequest) (*pb.StatusResponse, error) {
+	s.mu.Lock()
+	defer s.mu.Unlock()
+	return &pb.StatusResponse{Header: s.header(), Version: "3.5.15"}, nil
+}
+
+func (s *verifEtcd) Range(_ context.Context, req *pb.RangeRequest) (*pb.RangeResponse, error) {
+	s.mu.Lock()
+	defer s.mu.Unlock()
+	resp := &pb.RangeResponse{Header: s.header()}
+	keys := make([]string, 0, len(s.store))
+	for k := range s.store {
+		if strings.HasPrefix(k, string(req.Key)) {
+			keys = append(keys, k)
+		}
+	}
+	sort.Strings(keys)
+	for _, k := range keys {
+		resp.Kvs = append(resp.Kvs, &mvccpb.KeyValue{Key: []byte(k), Value: []byte(s.store[k]),
+			CreateRevision: 1, ModRevision: 1, Version: 1})
+	}
+	resp.Count = int64(len(resp.Kvs))
+	return resp, nil
+}
+
+func (s *verifEtcd) Watch(stream pb.Watch_WatchServer) error {
+	mu := &sync.Mutex{}
+	for {
+		req, err := stream.Recv()
+		if err != nil {
+			return nil
+		}
+		switch {
+		case req.GetCreateRequest() != nil:
+			s.mu.Lock()
+			s.nextID++
+			w := &verifWatch{key: string(req.GetCreateRequest().Key), id: s.nextID, stream: stream, mu: mu}
+			h := s.header()
+			s.mu.Unlock()
+			mu.Lock()
+			err := stream.Send(&pb.WatchResponse{Header: h, WatchId: w.id, Created: true})
+			mu.Unlock()
+			if err != nil {
+				return nil
+			}
+			s.creates <- w
+		case req.GetCancelRequest() != nil:
+			s.mu.Lock()
+			h := s.header()
+			s.mu.Unlock()
+			mu.Lock()
+			stream.Send(&pb.WatchResponse{Header: h, WatchId: req.GetCancelRequest().WatchId, Canceled: true})
+			mu.Unlock()
+		}
+	}
+}
+
+// ---------------------------------------------------------------- recording ClientConn
+
+type verifClientConn struct {
+	mu   sync.Mutex
+	pubs [][]string
+}
+
+func (c *verifClientConn) UpdateState(st resolver.State) error {
+	addrs := []string{}
+	for _, a := range st.Addresses {
+		addrs = append(addrs, a.Addr)
+	}
+	sort.Strings(addrs)
+	c.mu.Lock()
+	c.pubs = append(c.pubs, addrs)
+	c.mu.Unlock()
+	return nil
+}
+func (c *verifClientConn) ReportError(error)                                    {}
+func (c *verifClientConn) NewAddress([]resolver.Address)                        {}
+func (c *verifClientConn) NewServiceConfig(string)                              {}
+func (c *verifClientConn) ParseServiceConfig(string) *serviceconfig.ParseResult { return nil }
+func (c *verifClientConn) take() [][]string {
+	c.mu.Lock()
+	out := c.pubs
+	c.pubs = nil
+	c.mu.Unlock()
+	if out == nil {
+		out = [][]string{}
+	}
 	return out
 }
 
-type verifConnRec struct {
-	mu    sync.Mutex
-	addrs []int
-	n     int
+// ---------------------------------------------------------------- Build
+
+const verifWait = 120 * time.Second
+
+type resolverOp struct {
+	Op   string // put | del | sync
+	K, V string
+	Lose int // sync: number of changes applied to the store without a watch event first
 }
 
-func (m *verifConnRec) UpdateState(state resolver.State) error {
-	addrs := make([]int, 0, len(state.Addresses))
-	for _, a := range state.Addresses {
-		addrs = append(addrs, verifRValInt(a.Addr))
+func resolverHistory(t *testing.T, em *verifEmitter, s *verifEtcd, seq int, initial map[string]string,
+	ops []resolverOp, rnd interface{ Intn(int) int }, keyOf func() string, valOf func() string) {
+	svc := fmt.Sprintf("svc%d", seq)
+	prefix := svc + "/"
+	snapshot := func() [][2]string {
+		out := [][2]string{}
+		for k, v := range s.store {
+			if strings.HasPrefix(k, prefix) {
+				out = append(out, [2]string{k, v})
+			}
+		}
+		sort.Slice(out, func(i, j int) bool { return out[i][0] < out[j][0] })
+		return out
 	}
-	sort.Ints(addrs)
-	m.mu.Lock()
-	m.addrs = addrs
-	m.n++
-	m.mu.Unlock()
-	return nil
-}
-
-func (m *verifConnRec) last() []int {
-	m.mu.Lock()
-	defer m.mu.Unlock()
-	if m.addrs == nil {
-		return []int{}
+	s.mu.Lock()
+	for k, v := range initial {
+		s.store[prefix+k] = v
 	}
-	return append([]int{}, m.addrs...)
+	snap := snapshot()
+	s.mu.Unlock()
+
+	u, err := url.Parse(fmt.Sprintf("%s://%s/%s", DiscovScheme, s.addr, svc))
+	if err != nil {
+		t.Fatal(err)
+	}
+	cc := &verifClientConn{}
+	var b discovBuilder
+	// the etcd client's dial/version check has a 5 s budget: on a busy machine try again
+	var r resolver.Resolver
+	for attempt := 0; ; attempt++ {
+		if r, err = b.Build(resolver.Target{URL: *u}, cc, resolver.BuildOptions{}); err == nil {
+			break
+		}
+		if attempt == 5 {
+			t.Fatalf("resolver driver: Build failed against the in-process etcd: %v", err)
+		}
+		cc.take()
+	}
+	defer r.Close()
+	nextWatch := func() *verifWatch {
+		for {
+			select {
+			case w := <-s.creates:
+				if w.key == prefix {
+					return w
+				}
+			case <-time.After(verifWait):
+				t.Fatal("resolver driver: no Watch request arrived")
+				return nil
+			}
+		}
+	}
+	w := nextWatch()
+	em.Emit(verifEv{"e": "reset", "excl": false, "nl": 0})
+	em.Emit(verifEv{"e": "build", "snap": snap, "pubs": cc.take()})
+
+	send := func(resp *pb.WatchResponse) {
+		w.mu.Lock()
+		err := w.stream.Send(resp)
+		w.mu.Unlock()
+		if err != nil {
+			t.Fatalf("resolver driver: watch stream broken: %v", err)
+		}
+	}
+	for _, op := range ops {
+		switch op.Op {
+		case "put", "del":
+			key := prefix + op.K
+			s.mu.Lock()
+			s.rev++
+			ev := &mvccpb.Event{Kv: &mvccpb.KeyValue{Key: []byte(key), ModRevision: s.rev}}
+			if op.Op == "put" {
+				s.store[key] = op.V
+				ev.Type = mvccpb.PUT
+				ev.Kv.Value = []byte(op.V)
+			} else {
+				delete(s.store, key)
+				ev.Type = mvccpb.DELETE
+			}
+			resp := &pb.WatchResponse{Header: s.header(), WatchId: w.id, Events: []*mvccpb.Event{ev}}
+			s.mu.Unlock()
+			send(resp)
+			e := verifEv{"e": op.Op, "k": key, "obs": false, "vals": []string{}, "calls": []string{}}
+			if op.Op == "put" {
+				e["v"] = op.V
+			}
+			em.Emit(e)
+		case "sync":
+			s.mu.Lock()
+			for i := 0; i < op.Lose; i++ { // changes the watch never reports
+				key := prefix + keyOf()
+				if rnd.Intn(3) == 0 {
+					delete(s.store, key)
+				} else {
+					s.store[key] = valOf()
+				}
+			}
+			s.rev += 5
+			snap := snapshot()
+			resp := &pb.WatchResponse{Header: s.header(), WatchId: w.id, Canceled: true, CompactRevision: s.rev}
+			s.mu.Unlock()
+			send(resp)
+			w = nextWatch()
+			em.Emit(verifEv{"e": "rsync", "snap": snap, "pubs": cc.take()})
+		}
+	}
+	s.mu.Lock()
+	for k := range s.store {
+		if strings.HasPrefix(k, prefix) {
+			delete(s.store, k)
+		}
+	}
+	s.mu.Unlock()
 }
 
-func (m *verifConnRec) ReportError(error)                                     {}
-func (m *verifConnRec) NewAddress([]resolver.Address)                         {}
-func (m *verifConnRec) NewServiceConfig(string)                               {}
-func (m *verifConnRec) ParseServiceConfig(string) *serviceconfig.ParseResult { return nil }
-
-type verifResolved struct {
-	r  *discovResolver
-	cc *verifConnRec
-}
-
-var verifRSeq int64
-
-func TestVerifDiscovResolver(t *testing.T) {
+// TestVerifResolverBuild: seeded histories; initial tables of 0..40 values so that both sides
+// of the 32 boundary are built, crossed by deletes and puts, and re-loaded.
+func TestVerifResolverBuild(t *testing.T) {
+	logx.Disable()
 	em := verifOpen(t)
 	defer em.Close()
-	logx.Disable()
-	var fakesMu sync.Mutex
-	fakes := map[string]*verifEtcd{}
-	restore := discov.VerifSetEtcdClient(func(endpoints []string) (any, error) {
-		fakesMu.Lock()
-		defer fakesMu.Unlock()
-		f, ok := fakes[endpoints[0]]
-		if !ok {
-			return nil, fmt.Errorf("verif: no fake etcd for %v", endpoints)
-		}
-		return f, nil
-	})
-	defer restore()
-
-	traces := verifEnvInt("VERIF_DISCOV_TRACES", 12)
-	for n := 0; n < traces; n++ {
-		rnd := verifRand(int64(11000 + n))
-		nvals := 38 + rnd.Intn(18) // views around the subset size of 32, from both sides
-		nkeys := nvals + rnd.Intn(10)
-		if n%3 == 2 {
-			nkeys, nvals = 6, 4
-		}
-		steps := 25 + rnd.Intn(25)
-		ep := fmt.Sprintf("verif-resolver-%d-%d:2379", verifSeed(), atomic.AddInt64(&verifRSeq, 1))
-		fake := newVerifEtcd()
-		fakesMu.Lock()
-		fakes[ep] = fake
-		fakesMu.Unlock()
-		feed := &verifFeed{t: t, f: fake}
-		em.Emit(verifEv{"e": "reset", "driver": "resolver", "n": n, "keys": nkeys, "values": nvals})
-		reg := map[int]int{}
-		var rs []*verifResolved
-		observe := func(ev verifEv) {
-			vals := make([][]int, len(rs))
-			pub := make([][]int, len(rs))
-			for i, r := range rs {
-				vals[i] = verifRInts(r.r.sub.Values())
-				pub[i] = r.cc.last()
-			}
-			ev["vals"] = vals
-			ev["pub"] = pub
-			em.Emit(ev)
-		}
-		build := func() {
-			u, err := url.Parse(fmt.Sprintf("%s://%s/%s", DiscovScheme, ep, verifRPrefix))
-			if err != nil {
-				t.Fatal(err)
-			}
-			cc := &verifConnRec{}
-			var b discovBuilder
-			r, err := b.Build(resolver.Target{URL: *u}, cc, resolver.BuildOptions{})
-			if err != nil {
-				t.Fatalf("verif: discovBuilder.Build on the fake etcd client failed: %v", err)
-			}
-			if len(rs) == 0 {
-				feed.awaitWatch()
-			}
-			rs = append(rs, &verifResolved{r: r.(*discovResolver), cc: cc})
-			observe(verifEv{"e": "join", "s": len(rs), "x": false})
-		}
-		put := func(k, v int) {
-			rev := feed.apply(verifRKey(k), verifRVal(v), false)
-			if len(rs) > 0 {
-				feed.events(verifPutEvent(verifRKey(k), verifRVal(v), rev))
-			}
-			reg[k] = v
-			observe(verifEv{"e": "put", "k": k, "v": v})
-		}
-		// most traces start from a registry that is already populated (often with > 32 values)
-		for k := 1; k <= nkeys && n%4 != 3; k++ {
-			if rnd.Intn(7) != 0 {
-				put(k, k%nvals+1)
-			}
-		}
-		build()
-		for i := 0; i < steps; i++ {
-			k, v := 1+rnd.Intn(nkeys), 1+rnd.Intn(nvals)
-			switch c := rnd.Intn(100); {
-			case c < 45:
-				if rnd.Intn(2) == 0 {
-					v = (k+i)%nvals + 1 // keep the values spread out
-				}
-				put(k, v)
-			case c < 65:
-				rev := feed.apply(verifRKey(k), "", true)
-				feed.events(verifDelEvent(verifRKey(k), "", rev))
-				delete(reg, k)
-				observe(verifEv{"e": "del", "k": k})
-			case c < 75:
-				var ops [][3]int
-				var evs []*clientv3.Event
-				for j := 2 + rnd.Intn(6); j > 0; j-- {
-					bk, bv := 1+rnd.Intn(nkeys), 1+rnd.Intn(nvals)
-					if rnd.Intn(3) == 0 {
-						ops = append(ops, [3]int{0, bk, 0})
-						delete(reg, bk)
-						evs = append(evs, verifDelEvent(verifRKey(bk), "", feed.apply(verifRKey(bk), "", true)))
-					} else {
-						ops = append(ops, [3]int{1, bk, bv})
-						reg[bk] = bv
-						evs = append(evs, verifPutEvent(verifRKey(bk), verifRVal(bv), feed.apply(verifRKey(bk), verifRVal(bv), false)))
-					}
-				}
-				feed.events(evs...)
-				observe(verifEv{"e": "batch", "ops": ops})
-			case c < 95:
-				snap := map[int]int{}
-				for rk := 1; rk <= nkeys; rk++ {
-					rv, ok := reg[rk]
-					if !ok {
-						if rnd.Intn(3) == 0 {
-							snap[rk] = (rk+i)%nvals + 1
-						}
-						continue
-					}
-					switch rnd.Intn(10) {
-					case 0:
-					case 1:
-						snap[rk] = rv%nvals + 1
-					default:
-						snap[rk] = rv
-					}
-				}
-				if rnd.Intn(10) == 0 {
-					snap = map[int]int{}
-				}
-				kvs := map[string]string{}
-				pairs := [][2]int{}
-				for rk := 1; rk <= nkeys; rk++ {
-					if rv, ok := snap[rk]; ok {
-						kvs[verifRKey(rk)] = verifRVal(rv)
-						pairs = append(pairs, [2]int{rk, rv})
-					}
-				}
-				feed.setSnapshot(kvs)
-				feed.compact(rnd.Intn(2) == 0)
-				reg = snap
-				observe(verifEv{"e": "reload", "snap": pairs})
-			default:
-				if len(rs) < 2 {
-					build() // a second ClientConn on the same target: Registry.Monitor's replay path
-				}
-			}
-		}
-		for _, r := range rs {
-			r.r.Close()
-		}
+	s := verifStartEtcd(t)
+	defer s.gs.Stop()
+	rnd := verifRand(135)
+	histories, length := 24, 14
+	if verifThorough() {
+		histories, length = 160, 30
 	}
-
-	// subset() itself, every size around and beyond the limit
-	em.Emit(verifEv{"e": "reset", "driver": "subset"})
-	for size := 0; size <= 70; size++ {
-		set := make([]string, 0, size)
-		ints := make([]int, 0, size)
-		for i := 1; i <= size; i++ {
-			set = append(set, verifRVal(i))
-			ints = append(ints, i)
+	sizes := []int{0, 1, 2, 3, 31, 32, 33, 34, 40}
+	for h := 0; h < histories; h++ {
+		n := sizes[h%len(sizes)]
+		nk := n + 1 + rnd.Intn(4)
+		nv := n + 1 + rnd.Intn(3)
+		keyOf := func() string { return fmt.Sprintf("%d", 1+rnd.Intn(nk)) }
+		valOf := func() string { return fmt.Sprintf("10.0.0.%d:80", 1+rnd.Intn(nv)) }
+		initial := map[string]string{}
+		for i := 1; i <= n; i++ {
+			v := fmt.Sprintf("10.0.0.%d:80", i)
+			if rnd.Intn(8) == 0 {
+				v = valOf() // some values shared by several keys
+			}
+			initial[fmt.Sprintf("%d", i)] = v
 		}
-		out := subset(set, subsetSize)
-		em.Emit(verifEv{"e": "subset", "set": ints, "out": verifRInts(out)})
+		var ops []resolverOp
+		for i := 2 + rnd.Intn(length); i > 0; i-- {
+			switch r := rnd.Intn(100); {
+			case r < 40:
+				ops = append(ops, resolverOp{Op: "put", K: keyOf(), V: valOf()})
+			case r < 70:
+				ops = append(ops, resolverOp{Op: "del", K: keyOf()})
+			default:
+				ops = append(ops, resolverOp{Op: "sync", Lose: rnd.Intn(3) * rnd.Intn(2)})
+			}
+		}
+		ops = append(ops, resolverOp{Op: "sync"})
+		resolverHistory(t, em, s, h+1, initial, ops, rnd, keyOf, valOf)
+	}
+}
+
+// TestVerifResolverSubset: subset(set, n) on sets around n.
+func TestVerifResolverSubset(t *testing.T) {
+	em := verifOpen(t)
+	defer em.Close()
+	rnd := verifRand(136)
+	em.Emit(verifEv{"e": "reset", "excl": false, "nl": 0})
+	rounds := 40
+	if verifThorough() {
+		rounds = 400
+	}
+	for i := 0; i < rounds; i++ {
+		for _, n := range []int{1, 2, subsetSize / 2, subsetSize, subsetSize + 4} {
+			for _, size := range []int{0, 1, n - 1, n, n + 1, 2 * n, 3*n + rnd.Intn(5)} {
+				if size < 0 {
+					continue
+				}
+				set := make([]string, 0, size)
+				for j := 0; j < size; j++ {
+					set = append(set, fmt.Sprintf("10.0.%d.%d:80", j/250, j%250))
+				}
+				in := append([]string{}, set...)
+				out := append([]string{}, subset(in, n)...)
+				em.Emit(verifEv{"e": "subset", "set": set, "n": n, "out": out})
+			}
+		}
 	}
 }
